@@ -139,7 +139,11 @@ func reps(g *rg.G) []struct {
 	return []struct {
 		name string
 		h    graph.Graph
-	}{{"DenseGraph", g.Dense()}, {"SparseGraph", g.Sparse()}}
+	}{{"DenseGraph", g.Dense()}, {"SparseGraph", g.Sparse()},
+		// the same graph held with edge bytes other than 1 (any byte > 0 is an edge for NewDense and all observers)
+		// and with dirty spare capacity behind its slices
+		{"DenseGraph(edge bytes 1..255)", g.DenseVariant(1 + g.N%5)}, {"SparseGraph(spare capacity)", g.SparseVariant(1 + g.M()%3)},
+		{"complement view of the complement", graph.Complement(g.Complement().Dense())}}
 }
 
 // conforms compares a library graph with the model inside a guarded call.
